@@ -251,7 +251,7 @@ def project(events, peer):
             f[2] = "0"
         elif a in (1, 2):
             continue
-        if f[0] in ("uc", "ux", "z"):
+        if f[0] in ("uc", "ux", "z") or (a != peer and f[0] not in ("i", "a", "x")):
             continue
         out.append(":".join(f))
     return out
